@@ -24,7 +24,7 @@ from vcore import Infra, canon, hexs, pyres
 EPOCH2000 = 946684800
 WRAP_OK = False   # set in run(): spsdk.crypto.symmetric.Counter wraps at 2^32 instead of raising OverflowError (C09)
 EXT_MEM_IDS = [1, 4, 8, 9, 10, 11, 16]
-DATA = "/repo/tests"
+DATA = os.environ.get("SPSDK_REPO", "/repo") + "/tests"
 
 
 # ---------------------------------------------------------------------------------------------- command specs
@@ -639,6 +639,32 @@ def load_chains(ck):
     return chains
 
 
+def parser_model_line(file, kek, v21):
+    """request line for the Lean model of SPSDK's own parser (`sparse21` / `sparse20`).
+
+    The certificate block is opaque to that model: raw size / signature size come from SPSDK's CertBlockV1.parse on the
+    bytes where the block must start, and `verify_data` is replaced by a direct `cryptography` verification over the
+    range the format prescribes (header fields read from the file itself)."""
+    from spsdk.utils.crypto.cert_blocks import CertBlockV1
+
+    off = 208 if v21 else 288
+    flags = int.from_bytes(file[26:28], "little") if len(file) >= 28 else 0
+    raw, sg, ok = "-", 0, 0
+    if v21 or flags == 8:
+        r = pyres(lambda: CertBlockV1.parse(file[off:]))
+        r2 = pyres(lambda: (r[1].raw_size, r[1].signature_size)) if r[0] == "ok" else ("E",)
+        if r2[0] == "ok":
+            raw, sg = r2[1]
+            if v21:
+                n = off + raw + (32 if flags & 0x8000 else 0)
+                sig = file[n: n + sg]
+            else:
+                n = int.from_bytes(file[28:32], "little") * 16
+                sig = file[n:]
+            ok = int(verify_obligation(file, {"cert": file[off: off + raw].hex() or "-", "sig": sig.hex() or "-", "signed": str(n)}) is True)
+    return f"sparse{'21' if v21 else '20'} {kek.hex()} {raw} {sg} {ok} {file.hex()}"
+
+
 def regions(case, file, cert_len, sig_len):
     """named byte ranges of a built file"""
     out = [("header", 0, 96), ("header_mac", 96, 128), ("key_blob", 128, 208)]
@@ -695,7 +721,9 @@ def check_image(ck, drv, s, st, case, chains, n_flip, BootImageV20, BootImageV21
     tag = "21" if v21 else "20 " + ("1" if case["signed"] else "0")
     want = "ok:" + exp_content(case, cert, sig) + exp_sections(case)
     if drv is not None:
-        model_file, spec_line, rom_line = drv.batch([f"build{tag} {toks}", f"expected{tag} {toks}", f"rom{'21' if v21 else '20'} {case['kek']} {file.hex()}"])
+        model_file, spec_line, rom_line, pspec_line, pmodel_line = drv.batch(
+            [f"build{tag} {toks}", f"expected{tag} {toks}", f"rom{'21' if v21 else '20'} {case['kek']} {file.hex()}",
+             f"parsed{tag} {toks}", parser_model_line(file, kek, v21)])
         # (i) builder model = SPSDK
         s.compare(case, "ok:" + file.hex(), model_file, "exported image bytes (signature taken from SPSDK's output)")
         # Lean specification = Python expectation (ties Spec.expected21/20 to this file's exp_content)
@@ -732,6 +760,10 @@ def check_image(ck, drv, s, st, case, chains, n_flip, BootImageV20, BootImageV21
     p = pyres(lambda: cls.parse(file, kek=kek))
     got = parsed_view(p[1]) if p[0] == "ok" else p
     s.expect(got == exp_parsed_view(case), case, "SPSDK parse(export(image)) does not return the given content", _diff(got, exp_parsed_view(case)) if p[0] == "ok" else p)
+    if drv is not None:
+        # Lean model of SPSDK's parser = SPSDK's parser; Lean `parsedOf` (right-hand side of `parser_agrees`) = expectation
+        s.compare(case, "ok:" + got if p[0] == "ok" else "E", _err(pmodel_line), "BootImageV2x.parse vs the Lean parser model")
+        s.compare(case, "ok:" + exp_parsed_view(case), pspec_line, "Lean `parsedOf` vs the harness' expectation of the parsed content")
     # (iv) wrong KEK, bit flips
     good_rom = rom_fields(rom_line) if drv is not None else None
     trials = [("wrong_kek", None, None)]
@@ -755,8 +787,9 @@ def check_image(ck, drv, s, st, case, chains, n_flip, BootImageV20, BootImageV21
             f2, k2 = bytes(m), kek
         metas.append((name, pos, bit, f2, k2))
         lines.append(f"rom{'21' if v21 else '20'} {k2.hex()} {f2.hex()}")
+        lines.append(parser_model_line(f2, k2, v21))
     answers = drv.batch(lines) if drv is not None else [None] * len(lines)
-    for (name, pos, bit, f2, k2), ans in zip(metas, answers):
+    for (name, pos, bit, f2, k2), ans, pans in zip(metas, answers[0::2], answers[1::2]):
         inp = {"case": case, "region": name, "byte": pos, "bit": bit}
         st.note([case["nonce"], case["kek"], name, pos, bit], cls=("sect_" + name.split("_", 1)[-1]) if name[0] == "s" and name[1].isdigit() else name)
         if ans is not None:
@@ -769,6 +802,9 @@ def check_image(ck, drv, s, st, case, chains, n_flip, BootImageV20, BootImageV21
             else:
                 st.expect(ans.startswith("E:rom:"), inp, "ROM model gave no verdict", ans[:100])
         p2 = pyres(lambda: cls.parse(f2, kek=k2))
+        if pans is not None:
+            st.compare(inp, "ok:" + parsed_view(p2[1]) if p2[0] == "ok" else "E", _err(pans),
+                       "BootImageV2x.parse vs the Lean parser model on a tampered file / wrong KEK")
         if p2[0] == "ok":
             st.expect(name != "wrong_kek" and parsed_view(p2[1]) == exp_parsed_view(case), inp,
                       "SPSDK parser returns different content for a tampered file / wrong KEK instead of an error", parsed_view(p2[1])[:300])
